@@ -36,7 +36,22 @@ ASSUMPTIONS = ["std::bitset of libstdc++ 12 is the reference for spec validation
                "unsigned long and unsigned long long are 64 bits (LP64)"]
 TRUSTED = ["hand model Tetl/C17/Model.lean tied to the source by the correspondence run (R1) on every run",
            "spec Tetl/C17/Spec.lean (bit positions -> Bool) validated against libstdc++ std::bitset (R2) on every run"]
-THEOREMS = {}
+_P = "Tetl.C17.Props."
+_H = [_P + "step_rep", _P + "run_refines", _P + "padding_inv_history", _P + "run_observers"]
+THEOREMS = {
+    "new": [_P + "init_rep"], "set_all": [_P + "setAll_rep"] + _H, "reset_all": [_P + "resetAll_rep"] + _H,
+    "flip_all": [_P + "flipAll_rep"] + _H, "set": [_P + "set_rep", _P + "uncheckedSet_rep"] + _H,
+    "reset": [_P + "reset_rep", _P + "uncheckedReset_rep"] + _H, "flip": [_P + "flip_rep", _P + "uncheckedFlip_rep"] + _H,
+    "ref_assign": [_P + "refAssign_rep"] + _H, "ref_flip": [_P + "refFlip_rep"] + _H,
+    "ref_copy": [_P + "refGet_eq", _P + "refAssign_rep"] + _H,
+    "and": [_P + "andAssign_rep"] + _H, "or": [_P + "orAssign_rep"] + _H, "xor": [_P + "xorAssign_rep"] + _H,
+    "band": [_P + "andAssign_rep"] + _H, "bor": [_P + "orAssign_rep"] + _H, "bxor": [_P + "xorAssign_rep"] + _H,
+    "assign": _H, "not": [_P + "not_rep"] + _H, "from_ull": [_P + "fromUll_rep"] + _H,
+    "from_str": [_P + "fromString_rep", _P + "fromCstr_rep"] + _H,
+    "probe": [_P + "test_eq", _P + "uncheckedTest_eq", _P + "getConst_eq", _P + "refGet_eq", _P + "refNot_eq"],
+    "eq": [_P + "eq_eq"], "to_ullong": [_P + "toUnsigned_partial", _P + "toUnsigned_counterexample"],
+    "to_ulong": [_P + "toUnsigned_partial", _P + "toUnsigned_counterexample"], "to_string": [_P + "toStr_eq"],
+}
 SEARCH_CAP = 20000
 
 F_WIDE = "F-C17-to-ullong-wide-absent"
@@ -256,7 +271,7 @@ def generate(tier, seed):
         add(["new N=%d w=bs" % n, "from_ull o=0 %s" % hl(rnd.getrandbits(64)), "to_ullong o=0", "to_ulong o=0",
              "set o=0 pos=%d v=1" % (n - 1), "to_ullong o=0"], "wide-to-ullong/N%d" % n)
     # 4. random histories at every width and storage kind
-    per = 300 if thorough else 30
+    per = 1200 if thorough else 30
     for n in WIDTHS:
         for kind in KINDS:
             for _ in range(per):
@@ -315,6 +330,11 @@ LEVEL_TEXT = ("A word-array model of basic_bitset/bitset (BitVec words, checked 
 LEVEL_NOTE = ("Trusted: Lean kernel + propext/Classical.choice/Quot.sound; the hand model's fidelity outside the explored "
               "histories; popcount builtin = number of one bits; g++-12/ASan; libstdc++ as oracle for spec validation. Members "
               "listed in coverage.correspondence_only have no theorem yet and are covered by the differential run only.")
-# members modelled and compared on every run but without a Lean theorem yet (filled below)
-CORRESPONDENCE_ONLY = ["to_string", "to_ulong/to_ullong", "bitset(string_view,...)", "bitset(char const*,...)", "count", "all",
-                       "operator=="]
+# covered by the differential run only (no Lean theorem)
+CORRESPONDENCE_ONLY = [
+    "to_ulong/to_ullong for Bits > 64: the member does not exist (known finding F-C17-to-ullong-wide-absent)",
+    "defaulted arguments (set(pos) with value defaulted, to_string() with default characters, string constructors with pos/n/zero/one "
+    "defaulted): same bodies as the proved members, the defaults themselves are exercised by the harness only",
+    "popcount builtin (modelled as the number of one bits; the loop fallback belongs to C14)",
+    "character types other than char for the string constructors / to_string (not instantiated)",
+]
